@@ -118,7 +118,18 @@ R.ATTRS[("Func", "__qualname__")] = lambda ip, r: ZV(L.fn("func_qualname", L.V, 
 for _a, _t in (("logger", "Logger"), ("sample_rate", "Opt[int]"), ("should_trace", "Opt[Filter]"), ("max_typed_dict_size", "Opt[int]")):
     R.FIELDS[_a] = ({"Tracer"}, _t)
 R.FIELDS["traces"] = ({"Tracer"}, "Dict[Frame,Trace]")
-R.FIELDS["cache"] = ({"Tracer"}, "Dict[Code,Opt[Func]]")
+R.FIELDS["cache"] = ({"Tracer"}, "Dict[int,CacheEntry]")      # id(code) -> (code, function or None)
+
+
+def _cache_entry_item(ip, r, a, kw, node):
+    i = a[0]
+    if not (isinstance(i, PyC) and i.value in (0, 1)):
+        raise Unsupported("cache entry index")
+    ip.partial(L.len_(r.term) == 2, "IndexError", node, "cache-entry")
+    return ZV(L.nth(r.term, i.value), ("Code", "Opt[Func]")[i.value])
+
+
+R.METHODS[("CacheEntry", "__getitem__")] = _cache_entry_item
 R.FIELDS["func"] = ({"Trace"}, "Func")
 R.FIELDS["arg_types"] = ({"Trace"}, "Dict[str,Ty]")
 R.FIELDS["return_type"] = ({"Trace"}, "Opt[Ty]")
@@ -169,6 +180,7 @@ def _log(ip, r, a, kw, node):
     """logger.log(trace): an effect; a user logger may raise any Exception."""
     tr = a[0]
     snap = L.mk_tuple([as_v(PyC("log")), as_v(tr)] + [z3.Select(ip.heap_array(fld), as_v(tr)) for fld in ("func", "arg_types", "return_type", "yield_type")])
+    ip.st.log_attempted = True
     if ip.branch(L.fresh("log_raises", L.B), getattr(node, "lineno", 0)):
         raise RaisedEx(ExcVal("Exception", exact=False), getattr(node, "lineno", 0))
     ip.st.effects = L.seq_append(ip.st.effects, snap)
@@ -176,6 +188,12 @@ def _log(ip, r, a, kw, node):
 
 
 R.METHODS[("Logger", "log")] = _log
+
+
+@spec("log_attempted")
+def _log_attempted(ip, args, kw):
+    """The function under contract has handed a trace to logger.log on this path, whether or not the logger then failed (ghost)."""
+    return ZB(z3.BoolVal(bool(getattr(ip.st, "log_attempted", False))))
 
 
 @spec("log_entry")
@@ -233,8 +251,21 @@ def _code_flags(ip, r):
 
 
 R.ATTRS[("Code", "co_flags")] = _code_flags
-R.EXTERNALS["inspect.CO_COROUTINE"] = ZV(L.atom("inspect", "CO_COROUTINE"), "FlagBit")
-R.METHODS[("CodeFlags", "__and__")] = lambda ip, r, a, k, n: ZB(is_coroutine(r.term)) if as_v(a[0]).eq(L.atom("inspect", "CO_COROUTINE")) else (_ for _ in ()).throw(Unsupported("flag bit"))
+_flag_set = L.fn("flag_set", L.V, L.V, L.B)       # an unspecified bit test of a code object's flags; only CO_COROUTINE is given a meaning
+for _bit in ("CO_COROUTINE", "CO_GENERATOR", "CO_ASYNC_GENERATOR", "CO_ITERABLE_COROUTINE", "CO_VARARGS", "CO_VARKEYWORDS", "CO_NESTED", "CO_OPTIMIZED", "CO_NEWLOCALS"):
+    R.EXTERNALS["inspect." + _bit] = ZV(L.atom("inspect", _bit), "FlagBit")
+
+
+def _flags_and(ip, r, a, k, n):
+    b = as_v(a[0])
+    if b.eq(L.atom("inspect", "CO_COROUTINE")):
+        return ZB(is_coroutine(r.term))
+    if isinstance(a[0], ZV) and a[0].tag == "FlagBit":
+        return ZB(_flag_set(r.term, b))
+    raise Unsupported("flag bit")
+
+
+R.METHODS[("CodeFlags", "__and__")] = _flags_and
 
 L.axiom(T, "co-name-str", L.FA(f, L.is_str(co_name(f)), [co_name(f)]))
 
